@@ -9,19 +9,21 @@ Import ListNotations.
 
 Definition q2r (q : Q) : R := (IZR (Qnum q) / IZR (Zpos (Qden q)))%R.
 
-Definition long_marginal (K : nat) (pi0 : list Q) (A E : list (list Q)) (ys : list nat) : Q :=
-  this (marginal_vec K (tab1 pi0) (tab2 A) (tab2 E) ys).
-
-Definition long_filter_ok (K : nat) (pi0 : list Q) (A E : list (list Q)) (ys : list nat) (filt : list Q) : bool :=
+(** one pass of the vector recursion: the exact marginal and the judgement of the last
+    filtering distribution *)
+Definition long_eval (K : nat) (pi0 : list Q) (A E : list (list Q)) (ys : list nat) (filt : list Q) : Q * bool :=
   let av := alpha_vec K (tab1 pi0) (tab2 A) (tab2 E) ys in
   let m := fold_right Qcplus (Q2Qc 0) av in
-  vclose (1 # 2000) filt (map (fun a => this (a / m)%Qc) av).
+  (this m, vclose (1 # 2000) filt (map (fun a => this (a / m)%Qc) av)).
+
+Lemma long_eval_marginal K pi0 A E ys filt :
+  fst (long_eval K pi0 A E ys filt) = this (marginal_vec K (tab1 pi0) (tab2 A) (tab2 E) ys).
+Proof. reflexivity. Qed.
 
 Ltac hmm_long i K pi0 A E ys lm tol filt :=
-  let m := eval vm_compute in (long_marginal K pi0 A E ys) in
-  let f := eval vm_compute in (long_filter_ok K pi0 A E ys filt) in
-  lazymatch f with
-  | true =>
+  let r := eval vm_compute in (long_eval K pi0 A E ys filt) in
+  lazymatch r with
+  | (?m, true) =>
       tryif assert_succeeds
               (assert (Rabs (q2r lm - ln (q2r m)) <= q2r tol)%R
                 by (cbv [q2r Qnum Qden]; interval with (i_prec 80)))
@@ -31,5 +33,5 @@ Ltac hmm_long i K pi0 A E ys lm tol filt :=
                      by (cbv [q2r Qnum Qden]; interval with (i_prec 80)))
            then idtac "CASE" i "BAD"
            else idtac "CASE" i "UNDECIDED"
-  | false => idtac "CASE" i "BADFILTER"
+  | (_, false) => idtac "CASE" i "BADFILTER"
   end.
